@@ -814,3 +814,116 @@ def replay(run, assignment):
     except Abort:
         return False, [], ctx.notes, 'assumption not met by the witness'
     return bool(ctx.failures), ctx.failures, ctx.notes, None
+
+
+# ------------------------------------------------------------------------------------------------
+# symbolic words: concrete length, symbolic characters (code points as SInt)
+
+class SWord:
+    """a string of known length whose characters are symbolic code points; supports the operations
+    command-line handling code performs on words (== len startswith endswith [i] [a:b] in)"""
+
+    def __init__(self, chars, name='w'):
+        self.chars = list(chars)
+        self.name = name
+
+    @staticmethod
+    def fresh(ctx, name, length, lo=32, hi=127):
+        if not ctx.symbolic:
+            return ''.join(chr(ctx.fresh_int('%s_%d' % (name, i), lo, hi)) for i in range(length))
+        return SWord([ctx.fresh_int('%s_%d' % (name, i), lo, hi) for i in range(length)], name)
+
+    def __len__(self):
+        return len(self.chars)
+
+    def _eq_str(self, s):
+        if len(s) != len(self.chars):
+            return False
+        z = z3()
+        conj = [(_lift(c) == ord(ch)) for c, ch in zip(self.chars, s)]
+        conj = [c for c in conj if not isinstance(c, bool) or not c]
+        if any(isinstance(c, bool) for c in conj):
+            return False
+        if not conj:
+            return True
+        return SBool(z.And(*conj) if len(conj) > 1 else conj[0])
+
+    def __eq__(self, o):
+        if o is self:
+            return True
+        if isinstance(o, str):
+            return self._eq_str(o)
+        if isinstance(o, SWord):
+            if len(o.chars) != len(self.chars):
+                return False
+            z = z3()
+            if not self.chars:
+                return True
+            return SBool(z.And(*[_lift(a) == _lift(b) for a, b in zip(self.chars, o.chars)]))
+        return False
+
+    def __ne__(self, o):
+        r = self.__eq__(o)
+        return (not r) if isinstance(r, bool) else ~r
+
+    def __hash__(self):
+        raise Unsupported('hash of a symbolic word')
+
+    def startswith(self, s, *a):
+        if a or not isinstance(s, str):
+            raise Unsupported('startswith with positions / non-constant prefix')
+        if len(s) > len(self.chars):
+            return False
+        return SWord(self.chars[:len(s)])._eq_str(s)
+
+    def endswith(self, s, *a):
+        if a or not isinstance(s, str):
+            raise Unsupported('endswith with positions / non-constant suffix')
+        if len(s) > len(self.chars):
+            return False
+        if not s:
+            return True
+        return SWord(self.chars[len(self.chars) - len(s):])._eq_str(s)
+
+    def __getitem__(self, k):
+        if isinstance(k, slice):
+            return SWord(self.chars[k], self.name + '[..]')
+        if isinstance(k, int):
+            return SWord([self.chars[k]], self.name + '[%d]' % k)
+        raise Unsupported('symbolic index into a word')
+
+    def __contains__(self, sub):
+        if not isinstance(sub, str):
+            raise Unsupported('`in` with a non-constant needle')
+        if sub == '':
+            return True
+        n = len(sub)
+        z = z3()
+        alts = []
+        for i in range(0, len(self.chars) - n + 1):
+            r = SWord(self.chars[i:i + n])._eq_str(sub)
+            if r is True:
+                return True
+            if r is not False:
+                alts.append(r.e)
+        if not alts:
+            return False
+        return bool(SBool(z.Or(*alts) if len(alts) > 1 else alts[0]))
+
+    def __iter__(self):
+        return iter(SWord([c]) for c in self.chars)
+
+    def __str__(self):
+        if _cur is not None:
+            _cur.str_used += 1
+        return '<word:%s>' % self.name
+    __repr__ = __str__
+
+    def __add__(self, o):
+        raise Unsupported('concatenation of a symbolic word')
+    __radd__ = __add__
+
+    # helpers for oracles (non-forking)
+    def is_(self, s):
+        r = self._eq_str(s)
+        return r
